@@ -220,17 +220,18 @@ SPECS["C17"] = ("""property C17: every access path agrees and index accounting n
    "put_all_count", "one entry per distinct key: two tags of one event equal up to pad182 share one key"),
   ], "")
 
-CODIMP = "From Pocket Require Import Escape JsonParse Codec EscapeProofs NumProofs HexProofs Db DbProofs."
+CODIMP = "From Pocket Require Import Escape JsonParse Codec EscapeProofs NumProofs HexProofs Db DbProofs ParseTotal."
 
 SPECS["C03"] = ("""property C03: all parsers are total and memory-safe on arbitrary bytes and buffer sizes.
-   PARTIAL.  Proved for ALL byte strings and ALL capacities (models with explicit Panic / OutOfFuel
-   outcomes, fuel = input length + 1): json_unescape and json_escape never panic and never run out
-   of fuel, json_unescape consumes no more than its input and writes no more than the capacity;
-   hex decoding (ids, pubkeys, signatures, HLL registers) and address parsing are total, and
-   decoded bytes are well-formed.  The event / filter / tags JSON parser models (JsonParse.v) are
-   decided per run by the differential check over the structured malformed stream (every prefix,
-   single-byte corruptions, deep nesting, digit runs, every output length; both profiles; guard
-   bytes); their totality is not yet a Coq theorem.""",
+   Proved for ALL byte strings and ALL output buffers (models with explicit Panic / OutOfFuel
+   outcomes; fuel = input length + 1, so non-termination would be an unprovable fuel bound): the
+   event, filter and tags JSON parsers, json_unescape, json_escape, hex decoding (ids, pubkeys,
+   signatures, HLL registers) and address parsing never panic and never run out of fuel; consumed
+   lengths never exceed the input; the output buffer keeps its length (the model cannot write outside
+   it: every raw slice write is shown to be in range).  PARTIAL only for what a Gallina model cannot
+   exhibit (real-memory effects beyond the guard bytes) and for the final `output[..len]` slice of
+   Event/Filter::from_json and accessor totality on accepted values, which the differential run checks
+   (every prefix, single-byte corruptions, nesting, digit runs, every output length; both profiles).""",
   CODIMP, [
   ("C03_unescape_total", "forall l cap, json_unescape l cap <> Panic /\\ json_unescape l cap <> OutOfFuel", "json_unescape_total", ""),
   ("C03_unescape_consumed", "forall l cap n out, json_unescape l cap = Ok (n, out) -> n <= len l", "json_unescape_consumed", "consumed length <= input length"),
@@ -239,6 +240,15 @@ SPECS["C03"] = ("""property C03: all parsers are total and memory-safe on arbitr
   ("C03_read_hex_total", "forall input n, read_hex input n <> Panic /\\ read_hex input n <> OutOfFuel", "read_hex_total", "incl. bytes >= 0x80"),
   ("C03_read_hex_wellformed", "forall input out, read_hex_pairs input = Ok out -> wf_bytes out /\\ len input = 2 * len out", "read_hex_pairs_ok", ""),
   ("C03_addr_parse_total", "forall input, addr_parse input <> Panic /\\ addr_parse input <> OutOfFuel", "addr_parse_total", ""),
+  ("C03_event_parser_total",
+   "forall input out, safe (parse_json_event input out) /\\\n    (forall n elen out', parse_json_event input out = Ok (n, elen, out') -> n <= len input /\\ len out' = len out)",
+   "parse_json_event_total", "EVERY input, EVERY output buffer: no panic, terminates (fuel = input length + 1), consumed <= input, buffer length unchanged (no write outside it)"),
+  ("C03_filter_parser_total",
+   "forall input out, safe (parse_json_filter input out) /\\\n    (forall n flen out', parse_json_filter input out = Ok (n, flen, out') -> n <= len input /\\ len out' = len out)",
+   "parse_json_filter_total", ""),
+  ("C03_tags_parser_total",
+   "forall l out, safe (tags_from_json l out) /\\ (forall n t, tags_from_json l out = Ok (n, t) -> n <= len l)",
+   "tags_from_json_total", ""),
   ], "")
 
 SPECS["C01"] = ("""property C01: event JSON parsing is faithful to an independent JSON parser.
@@ -278,32 +288,72 @@ SPECS["C07"] = ("""property C07: filter JSON parsing is faithful, order-independ
 
 SPECS["C02"] = ("""property C02: event binary <-> JSON round trip is lossless and the binary form is canonical.
    PARTIAL.  Proved: the hex half of the round trip (read_hex (write_hex b) = b for ids, pubkeys,
-   signatures), string unescaping never writes beyond its buffer, and the binary encoding is a
+   signatures); the STRING half for every valid UTF-8 string (json_unescape reads json_escape's output
+   back to the same bytes, and a \\uXXXX spelling reads like the character itself); the binary encoding is a
    function of the seven field values alone (Ctor/Access theorems of C19: from_parts writes exactly
    enc_event e and every accessor returns the field).  Losslessness through json_escape/json_unescape
    and canonicity across texts are decided per run by the differential check (5 texts per event,
    3 buffer fills, from_parts, python json on as_json's output, byte equality).""",
-  CODIMP + "\nFrom Pocket Require Import Ctor CtorProofs Access.", [
+  CODIMP + "\nFrom Pocket Require Import Ctor CtorProofs Access EscapeRoundTrip.", [
   ("C02_hex_roundtrip_partial", "forall bs, wf_bytes bs -> read_hex (write_hex bs) (len bs) = Ok bs", "read_write_hex", ""),
   ("C02_binary_form_is_function_of_fields_partial",
    "forall e out, wf_aevent e -> fits_event e -> event_size e <= len out ->\n    exists b, event_from_parts e out = Ok b /\\ take (event_size e) b = enc_event e /\\ drop (event_size e) b = drop (event_size e) out /\\\n              len b = len out /\\ ev_delineate b = Ok (enc_event e) /\\ event_accessors_ok e (enc_event e)",
    "event_ctor_faithful", "independent of the buffer's prior contents"),
-  ], "")
+  ("C02_string_roundtrip",
+   "forall s e rest cap, valid_utf8 s -> json_escape s = Ok e -> len s <= cap ->\n    json_unescape (e ++ 34 :: rest) cap = Ok (len e, s)",
+   "escape_unescape_roundtrip", "every valid UTF-8 string (shortest-form encodings of Unicode scalar values), whatever follows the closing quote"),
+  ("C02_valid_strings_always_serialize", "forall s, valid_utf8 s -> exists e, json_escape s = Ok e", "json_escape_succeeds_on_valid", ""),
+  ("C02_choice_of_escape_irrelevant",
+   "forall fuel r consumed acc wp cap c, c < 65536 -> (c < 55296 \\/ 57344 <= c) -> wp + len (enc c) <= cap ->\n    unescape_fuel (6 + fuel) UNormal ([92; 117] ++ hex4 c ++ r) consumed acc wp cap\n    = unescape_fuel fuel UNormal r (consumed + 6) (rev_append (enc c) acc) (wp + len (enc c)) cap",
+   "un_u4", "a \\uXXXX escape of any non-surrogate code point is read exactly as that code point's UTF-8 bytes would be"),
+  ], """(* non-vacuity: control character, quote, backslash, 2-, 3- and 4-byte characters *)
+Example C02_roundtrip_example :
+  let cps := [104; 10; 34; 92; 1; 233; 8364; 128512] in
+  Forall scalar cps /\\
+  json_unescape (flat_map esc1 cps ++ 34 :: [1; 2; 3]) 64 = Ok (len (flat_map esc1 cps), utf8_of cps).
+Proof. exact roundtrip_sample. Qed.
+""")
 
 SPECS["C08"] = ("""property C08: event verification accepts exactly correctly hashed and signed events.
    PARTIAL.  The canonical serialisation hashed by verify/sign_new is the Coq function Codec.canon
    ([0,"<pubkey hex>",<created_at>,<kind>,<tags>,"<content>"], json_escape spellings); proved: it is
-   total (no panic) for every event, and its string escaper is total on arbitrary bytes.  That
+   total for every event, succeeds on every well-formed one, and is INJECTIVE in the five hashed fields
+   (so every single-field mutation changes the hashed text).  That
    SHA-256(canon) is the id the library computes, that verify accepts signed events and rejects every
    single-field mutation, is decided per run against python's hashlib and the real secp256k1
    (SHA-256 collision resistance and BIP-340 unforgeability are assumptions, not theorems).""",
-  CODIMP + "\nFrom Pocket Require Import CanonProofs.", [
+  CODIMP + "\nFrom Pocket Require Import CanonProofs EscapeRoundTrip CanonInj.", [
   ("C08_canon_total_partial", "forall e, canon e <> OutOfFuel", "canon_no_fuel", ""),
   ("C08_escape_total", "forall l, json_escape l <> Panic /\\ json_escape l <> OutOfFuel", "json_escape_total", ""),
   ("C08_canon_shape_partial",
    "forall e tj cj, tags_as_json (e_tags e) = Ok tj -> json_escape (e_content e) = Ok cj ->\n    canon e = Ok ([91; 48; 44; 34] ++ write_hex (e_pk e) ++ [34; 44] ++ dec (e_created e) ++ [44] ++ dec (e_kind e)\n                  ++ [44] ++ tj ++ [44; 34] ++ cj ++ [34; 93])",
    "canon_shape", "the NIP-01 array, no whitespace"),
-  ], "")
+  ("C08_escape_injective",
+   "forall s1 s2 e, valid_utf8 s1 -> valid_utf8 s2 -> json_escape s1 = Ok e -> json_escape s2 = Ok e -> s1 = s2",
+   "json_escape_injective", "two different valid strings never have the same canonical spelling: the hash input determines content and tag strings"),
+  ("C08_canon_determines_fields",
+   "forall e1 e2 c, canon_wf e1 -> canon_wf e2 -> canon e1 = Ok c -> canon e2 = Ok c ->\n    e_pk e1 = e_pk e2 /\\ e_created e1 = e_created e2 /\\ e_kind e1 = e_kind e2 /\\ e_tags e1 = e_tags e2 /\\ e_content e1 = e_content e2",
+   "canon_injective", "the hashed text is an injective function of (pubkey, created_at, kind, tags incl. their structure, content)"),
+  ("C08_mutation_changes_hashed_text",
+   "forall e1 e2 c1 c2, canon_wf e1 -> canon_wf e2 -> canon e1 = Ok c1 -> canon e2 = Ok c2 ->\n    (e_pk e1 <> e_pk e2 \\/ e_created e1 <> e_created e2 \\/ e_kind e1 <> e_kind e2 \\/ e_tags e1 <> e_tags e2 \\/ e_content e1 <> e_content e2) -> c1 <> c2",
+   "canon_mutation_changes_text", "every mutation of a hashed field gives a different text; that its SHA-256 differs is collision resistance (assumed)"),
+  ("C08_canon_succeeds", "forall e, canon_wf e -> exists c, canon e = Ok c", "canon_succeeds", "no panic in the hashing path for well-formed events"),
+  ], """(* non-vacuity: a well-formed event with a nested-looking tag, an empty tag and escapes *)
+Example C08_example :
+  let e := mkE (repeat 1 32) (repeat 2 32) (repeat 3 64) 1 1700000000 [[[101]; [91; 34; 93]]; []; [[]]] [104; 10; 34; 92; 195; 169] in
+  canon_wf e /\\ exists c, canon e = Ok c /\\ 80 < len c.
+Proof.
+  cbv zeta. split.
+  - unfold canon_wf. cbn [e_pk e_created e_kind e_tags e_content]. repeat apply conj; try (vm_compute; reflexivity); try lia.
+    + apply wf_bytesb_iff. vm_compute. reflexivity.
+    + repeat constructor.
+      * exists [101]. split; [repeat constructor; unfold scalar; lia|reflexivity].
+      * exists [91; 34; 93]. split; [repeat constructor; unfold scalar; lia|reflexivity].
+      * exists []. split; [constructor|reflexivity].
+    + exists [104; 10; 34; 92; 233]. split; [repeat constructor; unfold scalar; lia|vm_compute; reflexivity].
+  - eexists. split; [vm_compute; reflexivity|vm_compute; reflexivity].
+Qed.
+""")
 
 SPECS["C13"] = ("""property C13: killing the process at any instant leaves a consistent, reopenable store.
    Persistent-step model (Crash.v): what survives a kill is every byte already written, set_len,
